@@ -42,11 +42,10 @@ let ws_read_case (h : harness) (size : int) (reads : int) (items : item list) : 
      let w = ref w_init and sock = ref (L.map item_model items) in
      let delivered_impl = Buffer.create 64 and over = ref false in
      L.iteri (fun i res ->
-         let buf = L.init size (fun _ -> n_of_int 238) in
-         let (((w', sock'), buf'), r) = ws_read false !w !sock buf in
+         let (((w', sock'), data), r) = ws_read !w !sock (n_of_int size) in
          w := w'; sock := sock';
          let model = (match r with
-             | ROk n -> let n = int_of_n n in Printf.sprintf "ok:%d:x%s" n (hex_body (il (L.filteri (fun j _ -> j < min n size) buf')))
+             | ROk n -> let n = int_of_n n in Printf.sprintf "ok:%d:x%s" n (hex_body (il data))
              | RErrWouldBlock -> "wouldblock" | RErrOther -> "err") in
          let impl_norm = (match String.split_on_char ':' res with "err" :: _ -> "err" | _ -> res) in
          if impl_norm <> model then add "tie" "ws-read-model" (Printf.sprintf "read #%d: implementation %s, model %s" (i + 1) res model);
